@@ -8,7 +8,7 @@
 From Coq Require Import ZArith List Bool Znumtheory.
 From Coq.Strings Require Import Byte.
 From Verif Require Import Lib.Bytes Crypto.Sha256 Crypto.Secp256k1 Crypto.EcdsaAlgebra.
-From Verif Require Import Model.Der Model.Ecdsa Proofs.Der Proofs.Ecdsa Proofs.EcdsaWitness Proofs.EcdsaSession.
+From Verif Require Import Model.Der Model.Ecdsa Proofs.Der Proofs.Ecdsa Proofs.EcdsaWitness Proofs.EcdsaSession Proofs.EcdsaForms.
 Import ListNotations.
 Open Scope Z_scope.
 
@@ -296,6 +296,163 @@ Example verify_text_key_prefix_refuted :
   spec_verify_key (lib_z w3_dg) w3_strict w8_pk = Some true.
 Proof. exact w9_text_key. Qed.
 
+(* --- argument forms: every digest / signature / key argument is a bytes object or a str ("bytes, hexstring" in every
+       docstring).  The MEANING of a bytes argument is its bytes; the meaning of a str argument is the bytes its
+       base-16 text (two digits per byte, either case, nothing else) decodes to (arg_meaning).  The library's helpers
+       guess the form from the content (to_bytes un-hexlifies bytes that read as hex text, to_hexstring takes text that
+       does not read as hex as UTF-8).  lib_verify_forms / lib_sign_forms / lib_verify_session_forms are the code
+       paths on the arguments AS GIVEN (to_hexstring, the txid setter, bytes.fromhex, HDKey(text), the C code's
+       reading of the digest text); the correspondence runs them against the library with hex-looking bytes,
+       lower / upper / mixed-case text, text with white space and text that is not base-16 in every position. --- *)
+
+(* keys.verify(txid, signature, public_key): whenever the three arguments have meanings, the answer is the stateless
+   verifier on the meanings — bytes that happen to look like hex text are bytes, text in any case is its bytes *)
+Theorem verify_argument_form_irrelevant : forall dg sg key bd bs bk,
+  arg_meaning dg = Some bd -> arg_meaning sg = Some bs -> arg_meaning key = Some bk ->
+  lib_verify_forms dg sg key = lib_verify_key bd bs bk.
+Proof. exact verify_forms_meaning. Qed.
+
+Theorem verify_bytes_and_text_agree : forall bd bs bk,
+  lib_verify_forms (PBytes bd) (PBytes bs) (PBytes bk) = lib_verify_key bd bs bk /\
+  lib_verify_forms (PText (hex_ascii bd)) (PText (hex_ascii bs)) (PText (hex_ascii bk)) = lib_verify_key bd bs bk /\
+  lib_verify_forms (PText (hex_ascii_upper bd)) (PText (hex_ascii_upper bs)) (PText (hex_ascii_upper bk)) =
+    lib_verify_key bd bs bk.
+Proof. exact verify_forms_bytes_text. Qed.
+
+(* ... hence standard ECDSA on the meanings (with lib_verify_exact) *)
+Theorem verify_forms_exact : forall dg sg key bd bs bk,
+  arg_meaning dg = Some bd -> arg_meaning sg = Some bs -> arg_meaning key = Some bk ->
+  bd <> [] -> der64 bs = false -> lax_der bs = false ->
+  lib_verify_forms dg sg key = spec_verify_key (lib_z bd) bs bk.
+Proof. exact Proofs.EcdsaForms.verify_forms_exact. Qed.
+
+(* one call on an object holding (r, s) — obj.verify(txid, key), keys.verify(txid, obj, key), or the attribute
+   assignments obj.txid = ..; obj.public_key = ..; obj.verify() *)
+Theorem verify_step_form_irrelevant : forall r s by_attr dg k bd a,
+  arg_meaning dg = Some bd -> fkey_meaning k = Some a ->
+  lib_verify_step r s ((if by_attr : bool then dg_via_set else dg_via_verify) dg) (key_of_fkey k) =
+  lib_verify_step r s bd a.
+Proof. exact verify_step_forms_meaning. Qed.
+
+(* whole sessions on ONE object (arguments given or omitted, by call or by attribute assignment), the object parsed
+   from a signature given as bytes or text (.., public_key=), or built by Signature(r, s, txid=, public_key=), or
+   returned by sign(): arguments with meanings give the verdicts of the session on the meanings *)
+Theorem parsed_session_form_irrelevant : forall sg key steps bs key' steps',
+  arg_meaning sg = Some bs -> opt_meaning fkey_meaning key = Some key' -> steps_meaning steps = Some steps' ->
+  lib_verify_session_forms (FBytes sg key) steps = lib_verify_session (SrcBytes bs key') steps'.
+Proof. exact parsed_session_forms_meaning. Qed.
+
+Theorem values_session_form_irrelevant : forall r s dg key steps dg' key' steps',
+  opt_meaning arg_meaning dg = Some dg' -> opt_meaning fkey_meaning key = Some key' -> steps_meaning steps = Some steps' ->
+  lib_verify_session_forms (FValues r s dg key) steps = lib_verify_session (SrcValues r s dg' key') steps'.
+Proof. exact values_session_forms_meaning. Qed.
+
+Theorem signed_session_form_irrelevant : forall d a m k ht steps steps', arg_meaning a = Some m ->
+  (32 <? length m)%nat = true \/ lower_text a = true -> steps_meaning steps = Some steps' ->
+  lib_verify_session_forms (FSign d a k ht) steps = lib_verify_session (SrcSign (mk_sign_req d m k ht)) steps'.
+Proof. exact signed_session_forms_meaning. Qed.
+
+(* the signature argument of Signature.parse / parse_hex / verify alone *)
+Theorem parse_argument_form_irrelevant : forall a m, arg_meaning a = Some m ->
+  match sig_of_form a with Some b => lib_parse b | None => None end = lib_parse m.
+Proof. exact parse_forms_meaning. Qed.
+
+(* every parse entry point either reads the meaning or refuses (parse_bytes a str, parse_hex a bytes object) *)
+Theorem parse_entry_points_read_meaning : forall how a m, arg_meaning a = Some m ->
+  lib_parse_forms how a = lib_parse m \/ lib_parse_forms how a = None.
+Proof. exact parse_how_meaning. Qed.
+
+(* signing sessions with the digests as given: still the map of a stateless function *)
+Theorem sign_session_forms_is_function : forall reqs, lib_sign_session_forms reqs = map lib_sign_req_f reqs.
+Proof. exact sign_session_forms_is_map. Qed.
+
+(* signing: the digest as bytes or as lower-case text (what bytes.hex() gives), and every message longer than 32
+   bytes in any case — the signature of the meaning, RFC 6979 nonce included *)
+Theorem sign_argument_form_irrelevant : forall d a m k ht, arg_meaning a = Some m ->
+  (32 <? length m)%nat = true \/ lower_text a = true ->
+  lib_sign_forms d a k ht = lib_sign d m k ht.
+Proof. exact sign_forms_meaning. Qed.
+
+(* any case, explicit nonce: the signature of the meaning *)
+Theorem sign_explicit_nonce_form_irrelevant : forall d a m k ht, arg_meaning a = Some m -> k <> 0 ->
+  lib_sign_forms d a (Some k) ht = lib_sign d m (Some k) ht.
+Proof. exact sign_forms_explicit. Qed.
+
+(* any case, no nonce given: the VALUE that is signed is the meaning; only the nonce comes from the text
+   (finding hex_case_changes_nonce: upper / mixed-case text of at most 32 bytes) *)
+Theorem sign_form_reaches_nonce_only : forall d a m ht, arg_meaning a = Some m ->
+  exists t, unhex t = Some (lib_digest m) /\
+            lib_sign_forms d a None ht = lib_sign_forms d a (Some (rfc6979_nonce d (sha256 t))) ht /\
+            (rfc6979_nonce d (sha256 t) <> 0 ->
+             lib_sign_forms d a None ht = lib_sign d m (Some (rfc6979_nonce d (sha256 t))) ht).
+Proof. exact sign_forms_value. Qed.
+
+Theorem sign_upper_text_is_lib_sign_upper : forall d m ht, lib_nonce_upper d m <> 0 ->
+  lib_sign_forms d (PText (hex_ascii_upper m)) None ht = lib_sign_upper d m ht.
+Proof. exact sign_forms_upper. Qed.
+
+(* the hypotheses are satisfiable; hex-looking BYTES keep their own value *)
+Example argument_form_witness :
+  arg_meaning (PText (hex_ascii_upper w3_dg)) = Some w3_dg /\ arg_meaning (PText (hex_ascii w3_strict)) = Some w3_strict /\
+  arg_meaning (PBytes w8_pk) = Some w8_pk /\
+  lib_verify_forms (PText (hex_ascii_upper w3_dg)) (PText (hex_ascii w3_strict)) (PBytes w8_pk) = Some true /\
+  lib_verify_key w3_dg w3_strict w8_pk = Some true /\
+  arg_meaning (PBytes (hex_ascii w3_dg)) = Some (hex_ascii w3_dg) /\ hex_ascii w3_dg <> w3_dg.
+Proof. exact w15_mixed_forms. Qed.
+
+Example hexlike_bytes_digest_witness :
+  length w14_D = 32%nat /\ unhex w14_D = Some (be_bytes 16 0x0123456789abcdef0123456789abcdef) /\
+  lib_z (dg_via_verify (PBytes w14_D)) = of_be w14_D /\ lib_z (dg_via_set (PBytes w14_D)) = of_be w14_D /\
+  lib_z (dg_via_verify (PText (hex_ascii_upper w14_D))) = of_be w14_D /\
+  lib_create_text (PBytes w14_D) = Some (hex_ascii w14_D).
+Proof. exact w14_hexlike_bytes_digest. Qed.
+
+(* OUTSIDE the meanings.  Finding spaced_digest_text: a digest text with white space (which bytes.fromhex, the
+   library's own test for "is hex", accepts) — the C code counts the white space as digits when it cuts the integer
+   to 256 bits, so verify judges another number: W11 is accepted for '<64 digits>\n' and rejected for the digest
+   those digits spell *)
+Example verify_spaced_digest_refuted :
+  arg_meaning (PText w11_text) = None /\ py_fromhex w11_text = Some w11_D /\
+  lib_to_hexstring (PText w11_text) = w11_text /\ c_digest w11_text = bits2int w11_D / 16 /\
+  lib_verify_forms (PText w11_text) (PBytes w11_sig) (PBytes w8_pk) = Some true /\
+  lib_verify_forms (PBytes w11_D) (PBytes w11_sig) (PBytes w8_pk) = Some false /\
+  lib_verify_forms (PText (hex_ascii w11_D)) (PBytes w11_sig) (PBytes w8_pk) = Some false /\
+  spec_verify_key (lib_z w11_D) w11_sig w8_pk = Some false.
+Proof. exact w11_newline_digest. Qed.
+
+(* ... and Signature.create counts CHARACTERS: a 32-byte digest spelled with blanks is longer than 64 and its double
+   SHA-256 is signed instead of the digest *)
+Example sign_spaced_digest_refuted :
+  arg_meaning (PText (spaced w11_D)) = None /\ py_fromhex (spaced w11_D) = Some w11_D /\
+  lib_create_text (PText (spaced w11_D)) = Some (hex_ascii (sha256d w11_D)) /\
+  lib_create_text (PBytes w11_D) = Some (hex_ascii w11_D) /\
+  lib_create_text (PText (hex_ascii_upper w11_D)) = Some (hex_ascii_upper w11_D).
+Proof. exact w11_spaced_digest_signed_hashed. Qed.
+
+(* Finding nonhex_digest_text: text that is not base-16 under any reading is judged by verify as its UTF-8 bytes
+   (to_hexstring's second guess) and signed as the integer 0 (the C code's failed conversion), whatever it says *)
+Theorem nonhex_text_judged_as_utf8 : forall s sg key, py_fromhex s = None ->
+  lib_verify_forms (PText s) sg key = lib_verify_forms (PBytes s) sg key.
+Proof. exact Proofs.EcdsaForms.nonhex_text_judged_as_utf8. Qed.
+
+Theorem nonhex_text_signed_as_zero : forall d s k ht, clean_text s = false -> (length s <= 64)%nat -> k <> 0 ->
+  lib_sign_forms d (PText s) (Some k) ht =
+  if (1 <=? d) && (d <? secp_n) then
+    match ecdsa_sign d 0 k with
+    | None => None
+    | Some (r, s0) =>
+        if (0 <=? ht) && (ht <? 256) then Some (r, lib_low_s s0, der_enc r (lib_low_s s0) ++ [zb ht]) else None
+    end
+  else None.
+Proof. exact Proofs.EcdsaForms.nonhex_text_signed_as_zero. Qed.
+
+Example nonhex_digest_text_refuted :
+  arg_meaning (PText w12_text) = None /\ py_fromhex w12_text = None /\ py_fromhex w12_text' = None /\
+  lib_to_hexstring (PText w12_text) = hex_ascii w12_text /\
+  lib_create_text (PText w12_text) = Some w12_text /\ c_digest w12_text = 0 /\ c_digest w12_text' = 0 /\
+  clean_text w12_text = false /\ clean_text w12_text' = false.
+Proof. exact w12_nonhex_text. Qed.
+
 Print Assumptions sign_verifies.
 Print Assumptions executable_is_generic.
 Print Assumptions lib_sign_verifies.
@@ -322,3 +479,19 @@ Print Assumptions verify_session_exact.
 Print Assumptions verify_defaults_replay.
 Print Assumptions verify_defaults_keep_key.
 Print Assumptions verify_text_key_is_bytes_key.
+Print Assumptions verify_argument_form_irrelevant.
+Print Assumptions verify_bytes_and_text_agree.
+Print Assumptions verify_forms_exact.
+Print Assumptions verify_step_form_irrelevant.
+Print Assumptions parsed_session_form_irrelevant.
+Print Assumptions values_session_form_irrelevant.
+Print Assumptions signed_session_form_irrelevant.
+Print Assumptions parse_argument_form_irrelevant.
+Print Assumptions sign_argument_form_irrelevant.
+Print Assumptions sign_explicit_nonce_form_irrelevant.
+Print Assumptions sign_form_reaches_nonce_only.
+Print Assumptions sign_upper_text_is_lib_sign_upper.
+Print Assumptions nonhex_text_judged_as_utf8.
+Print Assumptions nonhex_text_signed_as_zero.
+Print Assumptions parse_entry_points_read_meaning.
+Print Assumptions sign_session_forms_is_function.
